@@ -2,6 +2,7 @@ package c03
 
 import (
 	"encoding/hex"
+	"os"
 	"strings"
 	"testing"
 
@@ -31,6 +32,11 @@ func FuzzCorrupt(f *testing.F) {
 	}
 	f.Fuzz(func(t *testing.T, x []byte) {
 		r.FuzzJudge(t, func() {
+			if st := os.Getenv("VERIF_FUZZ_SELFTEST"); (st == "1" && len(x)%7 == 3) || (st == "2" && len(x) == 1) {
+				// self test of the driver's fuzz-violation path (never set in a registered command)
+				r.Violation("selftest.fuzz-path", "self test: input of the chosen length", hex.EncodeToString(x))
+				return
+			}
 			v := model.JudgeCRC(x)
 			err := parse(x)
 			switch {
